@@ -70,6 +70,7 @@ func Load(repo string) (*Gen, error) {
 	g.Pures = cs.Pures
 	g.indexFunctions()
 	g.StrLit("")
+	g.TE.heapSort["$next"] = SInt
 	return g, nil
 }
 
@@ -341,7 +342,7 @@ type recView struct {
 }
 
 func (r *recView) Heap(name string) string { r.used[name] = true; return "hp_" + name }
-func (r *recView) Next() string            { return "0" }
+func (r *recView) Next() string            { r.used["$next"] = true; return "hp_$next" }
 
 func (g *Gen) pkgTypes(name string) *types.Package {
 	if sp, ok := g.SSAPkgs[name]; ok {
@@ -530,6 +531,10 @@ func (e *SpecEnv) callPure(pf *PureFn, x SCall) SV {
 	}
 	var args []string
 	for _, h := range pf.Heaps {
+		if h == "$next" {
+			args = append(args, e.Cur.Next())
+			continue
+		}
 		args = append(args, e.Cur.Heap(h))
 	}
 	pkg := e.G.pkgTypes(pf.Pkg)
